@@ -22,6 +22,6 @@ def gen(tier, seed):
     cases = R.gen(tier, seed)
     for name, stmts in EXTRA.items():
         body = "\n".join(stmts)
-        cases.append({"template": name, "params": {}, "src": R.HEAD.format(body=R.ind(body)), "routine": "s",
+        cases.append({"template": name, "params": {}, "src": R.HEAD.format(body=R.ind(body), locals=""), "routine": "s",
                       "nstmts": len(stmts), "stmts": stmts})
     return cases
